@@ -216,7 +216,10 @@ def _make_asgi_call(orig):
             rec['end'] = {'raised': _xexc(ex)}
             raise
         finally:
-            _CUR.reset(token)
+            try:
+                _CUR.reset(token)
+            except ValueError:      # an abandoned coroutine is finalised (GeneratorExit) in another context
+                pass
             try:
                 rec['patched_end'] = _patched()
             except Exception:     # noqa
@@ -242,8 +245,8 @@ def flush_pending():
 # inside the session
 # ------------------------------------------------------------------------------------------------
 
-_ROUTE_KINDS = {'path_not_found': 'miss', 'path_not_found_async': 'miss', 'bad_request': 'noresp',
-                'bad_request_async': 'noresp', 'method_not_allowed': 'noresp',
+_ROUTE_KINDS = {'path_not_found': 'miss', 'path_not_found_async': 'miss', 'bad_request': 'badmethod',
+                'bad_request_async': 'badmethod', 'method_not_allowed': 'noresp',
                 'method_not_allowed_responder_async': 'noresp'}
 
 
